@@ -1,7 +1,7 @@
 #!/bin/bash
 # usage: seedrun.sh <patch.diff> <ID> [<ID>...]   — applies the patch to a scratch worktree and runs the checks against it
 PATCH=$1; shift
-WT=/var/tmp/seedrun/wt
+WT=${WT:-/var/tmp/seedrun/wt}
 if [ ! -d $WT ]; then mkdir -p /var/tmp/seedrun; git -C /repo worktree add --detach $WT HEAD -q; fi
 cd $WT && git checkout -q -- . && git clean -fdq && git checkout -q --detach $(git -C /repo rev-parse HEAD)
 git apply $PATCH || { echo "PATCH DOES NOT APPLY"; exit 3; }
